@@ -1162,6 +1162,19 @@ func c13RangePairs(c *Ctx, g *load.G) {
 						}
 					} else {
 						why = "result of " + callName(x) + "(…) is not known to keep low/high pairs together"
+						// a helper of the package: the slice it returns is built by whole pairs
+						var id *ast.Ident
+						switch f := x.Fun.(type) {
+						case *ast.Ident:
+							id = f
+						case *ast.SelectorExpr:
+							id = f.Sel
+						}
+						for _, h := range load.AllFuncDecls(p) {
+							if id != nil && h.Body != nil && p.TypesInfo.Uses[id] == p.TypesInfo.Defs[h.Name] {
+								okStore, why = pairResult(h, 0, h == machineFd)
+							}
+						}
 					}
 				default:
 					why = "value " + t
@@ -1432,7 +1445,7 @@ func c13CounterLoops(c *Ctx, g *load.G) {
 				case *ast.AssignStmt:
 					if nospace(post.Lhs[0]) == iv {
 						up = post.Tok == token.ADD_ASSIGN
-						step = post.Tok.String() + nospace(post.Rhs[0])
+						step = post.Tok.String() + constText(p, post.Rhs[0])
 					}
 				}
 				construct := fmt.Sprintf("G.%s.%s:counter-loop#%d(%s)", p.Types.Name(), fd.Name.Name, k, cond)
